@@ -1,6 +1,6 @@
 PROPERTY = "C12"
 LEVEL = "proof"
-LEAN_MODULES = ["CifModel.Props.C12", "CifModel.Lemmas.ParserTop", "CifModel.Props.C12Lex", "CifModel.Props.C12Scan"]
+LEAN_MODULES = ["CifModel.Props.C12", "CifModel.Lemmas.ParserTop", "CifModel.Props.C12Lex", "CifModel.Props.C12Scan", "CifModel.Props.ReviewC12"]
 REQUIRED = ["CifModel.C12_clean", "CifModel.C12_first_report_is_policy_free", "CifModel.C12_missing_value_instance",
             "CifModel.C12_unexpected_value_instance", "CifModel.C12_dup_scalar_instance", "CifModel.C12_dup_loop_header_instance",
             "CifModel.C12_partial_packet_instance", "CifModel.C12_empty_and_null_loop_instance", "CifModel.C12_no_block_header_instance",
